@@ -168,26 +168,29 @@ Record rstate := mk_rstate {
   r_cidneg : bool;           (* State13.CID.Negotiated *)
   r_rrc : bool;              (* RRCNegotiated *)
   r_closed : bool;
-  r_estab : bool             (* handshakeEstablished: the handshake completed successfully *)
+  r_estab : bool;            (* handshakeEstablished: the handshake completed successfully *)
+  r_early : list (bytes * N * N)   (* Conn.earlyApplicationData (with the record number each came under) *)
 }.
 
 Definition rinit (cid : bytes) (cidneg rrc : bool) : rstate :=
-  mk_rstate 0 None [] [] [] [] cid cidneg rrc false false.
+  mk_rstate 0 None [] [] [] [] cid cidneg rrc false false [].
 
 Definition with_wins (s : rstate) (ws : list wentry) : rstate :=
-  mk_rstate (r_epoch s) (r_cur s) (r_old s) ws (r_high s) (r_queue s) (r_cid s) (r_cidneg s) (r_rrc s) (r_closed s) (r_estab s).
+  mk_rstate (r_epoch s) (r_cur s) (r_old s) ws (r_high s) (r_queue s) (r_cid s) (r_cidneg s) (r_rrc s) (r_closed s) (r_estab s) (r_early s).
 Definition with_high (s : rstate) (hs : list N) : rstate :=
-  mk_rstate (r_epoch s) (r_cur s) (r_old s) (r_wins s) hs (r_queue s) (r_cid s) (r_cidneg s) (r_rrc s) (r_closed s) (r_estab s).
+  mk_rstate (r_epoch s) (r_cur s) (r_old s) (r_wins s) hs (r_queue s) (r_cid s) (r_cidneg s) (r_rrc s) (r_closed s) (r_estab s) (r_early s).
 Definition with_queue (s : rstate) (q : list bytes) : rstate :=
-  mk_rstate (r_epoch s) (r_cur s) (r_old s) (r_wins s) (r_high s) q (r_cid s) (r_cidneg s) (r_rrc s) (r_closed s) (r_estab s).
+  mk_rstate (r_epoch s) (r_cur s) (r_old s) (r_wins s) (r_high s) q (r_cid s) (r_cidneg s) (r_rrc s) (r_closed s) (r_estab s) (r_early s).
 Definition with_closed (s : rstate) : rstate :=
-  mk_rstate (r_epoch s) (r_cur s) (r_old s) (r_wins s) (r_high s) (r_queue s) (r_cid s) (r_cidneg s) (r_rrc s) true (r_estab s).
+  mk_rstate (r_epoch s) (r_cur s) (r_old s) (r_wins s) (r_high s) (r_queue s) (r_cid s) (r_cidneg s) (r_rrc s) true (r_estab s) (r_early s).
 Definition with_epoch (s : rstate) (e : N) : rstate :=
-  mk_rstate e (r_cur s) (r_old s) (r_wins s) (r_high s) (r_queue s) (r_cid s) (r_cidneg s) (r_rrc s) (r_closed s) (r_estab s).
+  mk_rstate e (r_cur s) (r_old s) (r_wins s) (r_high s) (r_queue s) (r_cid s) (r_cidneg s) (r_rrc s) (r_closed s) (r_estab s) (r_early s).
 Definition with_estab (s : rstate) : rstate :=
-  mk_rstate (r_epoch s) (r_cur s) (r_old s) (r_wins s) (r_high s) (r_queue s) (r_cid s) (r_cidneg s) (r_rrc s) (r_closed s) true.
+  mk_rstate (r_epoch s) (r_cur s) (r_old s) (r_wins s) (r_high s) (r_queue s) (r_cid s) (r_cidneg s) (r_rrc s) (r_closed s) true [].
+Definition with_early (s : rstate) (l : list (bytes * N * N)) : rstate :=
+  mk_rstate (r_epoch s) (r_cur s) (r_old s) (r_wins s) (r_high s) (r_queue s) (r_cid s) (r_cidneg s) (r_rrc s) (r_closed s) (r_estab s) l.
 Definition with_ext (s : rstate) (cid : bytes) (neg rrc : bool) : rstate :=
-  mk_rstate (r_epoch s) (r_cur s) (r_old s) (r_wins s) (r_high s) (r_queue s) cid neg rrc (r_closed s) (r_estab s).
+  mk_rstate (r_epoch s) (r_cur s) (r_old s) (r_wins s) (r_high s) (r_queue s) cid neg rrc (r_closed s) (r_estab s) (r_early s).
 
 Definition mem_N (e : N) (l : list N) : bool := existsb (N.eqb e) l.
 
@@ -198,7 +201,7 @@ Definition install_read (s : rstate) (e : N) : rstate :=
               | Some p => if (p =? e) || mem_N p (r_old s) then r_old s else r_old s ++ [p]
               | None => r_old s
               end in
-  mk_rstate (r_epoch s) (Some e) old' (r_wins s) (r_high s) (r_queue s) (r_cid s) (r_cidneg s) (r_rrc s) (r_closed s) (r_estab s).
+  mk_rstate (r_epoch s) (Some e) old' (r_wins s) (r_high s) (r_queue s) (r_cid s) (r_cidneg s) (r_rrc s) (r_closed s) (r_estab s) (r_early s).
 
 (* TrafficKeyState.Read(epoch) found: hasInboundRecordProtection for LocalVersion 1.3 *)
 Definition has_gen (s : rstate) (e : N) : bool :=
@@ -224,7 +227,9 @@ Definition queueable_epoch (elow re : N) : bool :=
 
 Inductive out :=
 | OMark (e q : N)                    (* replay slot committed (markPacketAsValid) *)
-| ODeliver (p : bytes) (e q : N)     (* payload handed to Read *)
+| ODeliver (p : bytes) (e q : N)     (* payload handed to Read (the handshake is complete) *)
+| OPark (p : bytes) (e q : N)        (* payload parked until the local handshake completes (parkEarlyApplicationData) *)
+| OEarly (p : bytes) (e q : N)       (* a parked payload is returned by Read, before anything else *)
 | OHs (e q : N) (body : bytes)       (* handshake record accepted by the reassembly buffer, FSM woken; pending ACK for e >= 2 *)
 | OAck (e q : N) (body : bytes)      (* ACK handed to the FSM *)
 | OAlertIn (e q level desc : N)      (* a received alert is acted on *)
@@ -339,43 +344,52 @@ Section Model.
     | (true, None) => OpenFail
     end.
 
-  (* markPacketAsValid: protectedReplayMarker also raises RemoteSequenceNumber when the detector
-     reports the newest number; legacyReplayMarker does not *)
-  Definition mark (W : nat) (prot : bool) (s : rstate) (e q : N) : rstate :=
+  (* markPacketAsValid of protectedReplayMarker: accept, and raise RemoteSequenceNumber when the
+     detector reports the newest number *)
+  Definition mark (W : nat) (s : rstate) (e q : N) : rstate :=
     let '(mx, w) := get_win W e (r_wins s) in
     let '(w', isl) := accept mx w q in
     let s1 := with_wins s (set_win e (mx, w') (r_wins s)) in
-    if prot && isl then with_high s1 (update_high e q (r_high s1)) else s1.
+    if isl then with_high s1 (update_high e q (r_high s1)) else s1.
+
+  (* the marker handed to the content handlers: legacyReplayMarker's for an unprotected (epoch 0)
+     record does nothing - nothing authenticates its number, it must not move the window *)
+  Definition commit (W : nat) (prot : bool) (s : rstate) (e q : N) : rstate * list out :=
+    if prot then (mark W s e q, [OMark e q]) else (s, []).
 
   (* handleIncomingPacket after the record was prepared: bufferHandshakeRecord, RecordLayer.Unmarshal,
      handleRecordContent; processIncomingPacket sends the response alert *)
   Definition dispatch (W : nat) (prot : bool) (s : rstate) (e q t : N) (body : bytes) : rstate * list out :=
+    let c := commit W prot s e q in
     if t =? 22 then
       (* bufferHandshakeRecord: once the handshake is complete an unprotected handshake record is
-         dropped before reassembly (no commit, nothing reaches the post-handshake state machine) *)
+         dropped before reassembly (nothing reaches the post-handshake state machine) *)
       (if r_estab s && (e =? 0) then (s, [])
-       else if hs_ok body then (mark W prot s e q, [OMark e q; OHs e q body]) else (s, []))
+       else if hs_ok body then (fst c, snd c ++ [OHs e q body]) else (s, []))
     else
     match decode_content t body with
     | CBad => if e =? 0 then (s, []) else (s, [OAlertOut 2 50; OErr])
     | CAck =>
         (* an unprotected ACK is discarded: nothing vouches for it *)
-        if e =? 0 then (s, []) else (mark W prot s e q, [OMark e q; OAck e q body])
+        if e =? 0 then (s, []) else (fst c, snd c ++ [OAck e q body])
     | CAlert level desc =>
-        (* once the handshake is complete an unprotected alert is discarded: no commit, no reply, no
-           close, no error *)
+        (* once the handshake is complete an unprotected alert is discarded: no reply, no close, no error *)
         if r_estab s && (e =? 0) then (s, []) else
-        let s1 := mark W prot s e q in
         let reply := if desc =? 0 then [OAlertOut 1 0] else [] in
         if (level =? 2) || (desc =? 0)
-        then (with_closed s1, OMark e q :: OAlertIn e q level desc :: reply ++ [OClosed])
-        else (s1, OMark e q :: OAlertIn e q level desc :: reply ++ [OErr])
+        then (with_closed (fst c), snd c ++ OAlertIn e q level desc :: reply ++ [OClosed])
+        else (fst c, snd c ++ OAlertIn e q level desc :: reply ++ [OErr])
     | CApp p =>
-        if e =? 0 then (s, [OAlertOut 2 10; OErr])
-        else (mark W prot s e q, [OMark e q; ODeliver p e q])
+        (* unprotected application data is refused silently; before the local handshake has completed
+           the payload is parked (at most 100, the rest is lost) and Read returns it first *)
+        if e =? 0 then (s, [])
+        else if r_estab s then (fst c, snd c ++ [ODeliver p e q])
+        else if Nat.ltb (length (r_early s)) max_queue
+             then (with_early (fst c) (r_early s ++ [(p, e, q)]), snd c ++ [OPark p e q])
+             else c
     | CRrc =>
         if (e =? 0) || negb (r_rrc s) then (s, [OAlertOut 2 10; OErr])
-        else (mark W prot s e q, [OMark e q; ORrc e q])
+        else (fst c, snd c ++ [ORrc e q])
     end.
 
   (* prepareCiphertextPacket and what follows *)
@@ -517,7 +531,7 @@ Section Model.
     | Arrive d => recv13 W s d
     | InstallRead e => (install_read s e, [])
     | SetRemoteEpoch e => (with_epoch s e, [])
-    | SetEstablished => (with_estab s, [])
+    | SetEstablished => (with_estab s, map (fun x : bytes * N * N => OEarly (fst (fst x)) (snd (fst x)) (snd x)) (r_early s))
     | SetExt cid neg rrc => (with_ext s cid neg rrc, [])
     | Drain => if r_closed s then (s, []) else recv_list W false (with_queue s []) (r_queue s)
     end.
@@ -539,11 +553,22 @@ Fixpoint marks (os : list out) : list (N * N) :=
   | _ :: os' => marks os'
   end.
 
+(* payloads accepted for Read: handed over at once, or parked until the handshake completes *)
 Fixpoint deliveries (os : list out) : list (bytes * N * N) :=
   match os with
   | [] => []
   | ODeliver p e q :: os' => (p, e, q) :: deliveries os'
+  | OPark p e q :: os' => (p, e, q) :: deliveries os'
   | _ :: os' => deliveries os'
+  end.
+
+(* what Read returns, in order *)
+Fixpoint reads (os : list out) : list (bytes * N * N) :=
+  match os with
+  | [] => []
+  | ODeliver p e q :: os' => (p, e, q) :: reads os'
+  | OEarly p e q :: os' => (p, e, q) :: reads os'
+  | _ :: os' => reads os'
   end.
 
 (* every output except the internal commit marker *)
